@@ -10,7 +10,7 @@ import json,re,sys
 try:
     f=json.load(open('$SRC/summary.json')).get('demo_flags') or ''
 except Exception: f=''
-m=re.search(r'(--no-default-features[^\n\`\"]*?)( --test|\$)', f) or re.search(r'(--features [A-Za-z0-9_,-]+)', f)
+m=re.search(r'(--no-default-features(?: --features [A-Za-z0-9_,-]+)?)', f) or re.search(r'(--features [A-Za-z0-9_,-]+)', f)
 print(m.group(1).strip() if m else '')")
 LINE=$(DEMO_FLAGS="$FLAGS" bash /verif/tools/confirm_seed.sh $SRC $WT | tail -1)
 echo "$P [$FLAGS] $LINE"
